@@ -576,4 +576,68 @@ Not decided: doc-comment attribution (excluded by the property), nom's internals
             ctx.violate("C13.comments", "skip_ws", &f.file, f.line, "skip_ws must skip whitespace before the inner parser");
         }
     }
+    hyphen_runs(m, ctx);
+}
+
+/// C13.hyphen: `--` opens a comment wherever it occurs outside a string, and a name never ends in a hyphen (X.680 12.2,
+/// 12.3, 12.6.1). A parser that repeats a character class containing `-` (take_while / is_a / many(one_of(..)))
+/// swallows the hyphens of a comment that follows a name without whitespace, so every such repetition in the lexer is
+/// audited (audit/hyphen_runs.json): the accepted ones sit inside quotation marks or are not followed by trivia.
+fn hyphen_runs(m: &Model, ctx: &mut Ctx) {
+    let audit: Value = std::fs::read_to_string(ctx.verif.join("audit/hyphen_runs.json")).ok().and_then(|s| serde_json::from_str(&s).ok()).unwrap_or(json!({"sites": {}}));
+    let consts = crate::rules::util::const_resolver(m);
+    let ev = crate::eval::Evaluator { consts: &consts, call_hook: &crate::eval::no_hook, inline: None };
+    let mut sites: BTreeMap<String, (String, usize, String)> = BTreeMap::new();
+    let mut examined = 0;
+    for f in m.fns.iter().filter(|f| f.krate == "rasn-compiler" && f.module.starts_with("lexer") && !f.module.contains("tests")) {
+        for c in model::calls_in(&f.block) {
+            let name = model::callee_name(&c).unwrap_or_default();
+            let accepts_hyphen = match name.as_str() {
+                // predicate repetitions
+                "take_while" | "take_while1" | "take_while_m_n" | "take_till" | "take_till1" => {
+                    let Some(pred) = c.args.iter().last() else { continue };
+                    examined += 1;
+                    let r = match pred {
+                        syn::Expr::Closure(_) => ev.apply_closure(pred, &[crate::eval::Val::Char('-')], &crate::eval::Env::new()),
+                        other => Err(format!("predicate `{}` is not a closure", tok(other))),
+                    };
+                    match r {
+                        Ok(crate::eval::Val::Bool(b)) => if name.starts_with("take_till") { !b } else { b },
+                        // a predicate that cannot be evaluated is treated as accepting (audited)
+                        _ => true,
+                    }
+                }
+                "is_a" => {
+                    examined += 1;
+                    c.args.first().map(|a| tok(a).contains('-')).unwrap_or(true)
+                }
+                "is_not" => false,
+                // repetition of a character set
+                "many0" | "many1" | "fold_many0" | "fold_many1" | "many_m_n" | "many_till" | "many0_count" | "many1_count" => {
+                    let inner = c.args.iter().map(|a| tok(a)).find(|t| t.starts_with("one_of(") || t.contains("(one_of("));
+                    match inner {
+                        Some(t) => {
+                            examined += 1;
+                            t.split("one_of(").nth(1).map(|r| r.split(')').next().unwrap_or("").contains('-')).unwrap_or(false)
+                        }
+                        None => false,
+                    }
+                }
+                _ => false,
+            };
+            if accepts_hyphen {
+                let key = format!("{}|{}", f.key, name);
+                sites.insert(key, (f.file.clone(), model::line_of(syn::spanned::Spanned::span(&c)), tok(&c).chars().take(90).collect()));
+            }
+        }
+    }
+    ctx.floor("C13.hyphen/repetitions-examined", examined, 3);
+    for (k, (file, line, text)) in &sites {
+        ctx.oblige("C13.hyphen", k, true);
+        if audit["sites"].get(k).is_none() {
+            ctx.violate("C13.hyphen", &format!("unaudited-hyphen-run:{}", k), file, *line,
+                &format!("`{}` repeats a character class that contains `-`: it consumes `--`, so a comment written directly after the token (no whitespace) is swallowed into it, and a trailing hyphen is accepted as part of a name", text));
+        }
+    }
+    ctx.extra.insert("hyphen_runs".into(), json!(sites.keys().collect::<Vec<_>>()));
 }
